@@ -335,6 +335,7 @@ pub fn run_comb_case(l: &[i64]) -> Vec<i64> {
     }
 }
 
+
 // ------------------------------------------------------------------ kind 4
 // one event: set the scripted input, update, get twice
 fn drive<T: Payload, O: Payload, S: Getter<O, E> + Updatable<E>>(
@@ -549,11 +550,80 @@ pub fn run_strm_case(l: &[i64]) -> Vec<i64> {
                 }
                 out
             }
+            15 => {
+                let sp = f32::dec(l, p)?;
+                let k = dec_kvals(l, p)?;
+                let evs = dec_events::<Quantity>(l, p)?;
+                let input = scripted::<Quantity>(Ok(None));
+                let mut s = crate::pidex::make(
+                    to_dyn!(Getter<Quantity, ()>, rc_ref_cell_reference(UnitErr { inner: input.clone() })),
+                    Quantity::new(sp, MILLIMETER),
+                    Quantity::dimensionless(k.kp),
+                    Quantity::dimensionless(k.ki),
+                    Quantity::dimensionless(k.kd),
+                );
+                let mut out = Vec::new();
+                for ev in evs {
+                    input.borrow_mut().cur = ev;
+                    let r = std::panic::catch_unwind(std::panic::AssertUnwindSafe(|| {
+                        let mut o = Vec::new();
+                        let u = s.update().map_err(back_err);
+                        enc_upd(&u, &mut o);
+                        let g1 = s.get().map_err(back_err);
+                        enc_out(&g1, &mut o);
+                        let g2 = s.get().map_err(back_err);
+                        let mut a = Vec::new();
+                        let mut b = Vec::new();
+                        enc_out(&g1, &mut a);
+                        enc_out(&g2, &mut b);
+                        o.push((a == b) as i64);
+                        o
+                    }));
+                    match r {
+                        Ok(o) => out.extend(o),
+                        Err(_) => {
+                            out.push(W_PANIC);
+                            break;
+                        }
+                    }
+                }
+                out
+            }
             _ => return None,
         })
     })();
     match r {
         Some(v) if pos == l.len() => v,
         _ => vec![W_BAD],
+    }
+}
+
+// The example's error type is (): adapt the scripted u8-error getter.  Other(k) cannot be carried in
+// a (), so the harness keeps the last error value on the side.
+thread_local! { static LAST_ERR: std::cell::Cell<u8> = std::cell::Cell::new(0); }
+pub struct UnitErr {
+    pub inner: Reference<Scripted<Quantity>>,
+}
+impl Getter<Quantity, ()> for UnitErr {
+    fn get(&self) -> Output<Quantity, ()> {
+        match self.inner.borrow().get() {
+            Ok(x) => Ok(x),
+            Err(Error::Other(k)) => {
+                LAST_ERR.with(|c| c.set(k));
+                Err(Error::Other(()))
+            }
+            Err(_) => Err(Error::FromNone),
+        }
+    }
+}
+impl Updatable<()> for UnitErr {
+    fn update(&mut self) -> NothingOrError<()> {
+        Ok(())
+    }
+}
+fn back_err(e: Error<()>) -> Error<E> {
+    match e {
+        Error::Other(()) => Error::Other(LAST_ERR.with(|c| c.get())),
+        _ => Error::FromNone,
     }
 }
